@@ -532,8 +532,22 @@ class SymInt:
     def __format__(self, spec: str) -> str:
         return str(self)
 
-    def to_bytes(self, *a: Any, **k: Any) -> Any:
-        raise Unsupported('SymInt.to_bytes')
+    def to_bytes(self, length: int = 1, byteorder: str = 'big', *, signed: bool = False) -> Any:
+        """non-negative value < 256**length (else OverflowError), as SymBytes"""
+        from .codecs7 import _divmod
+        from .symbytes import SymBytes
+        if signed:
+            raise Unsupported('SymInt.to_bytes(signed=True)')
+        if (self < 0) | (self >= 256 ** length):
+            raise OverflowError('int too big to convert')
+        out = []
+        x: Any = self
+        for _ in range(length):
+            x, r = _divmod(x, 256)[:2]
+            out.append(r)
+        if byteorder == 'big':
+            out.reverse()
+        return SymBytes(out, 'bytes')
 
     def eval(self, model: Any) -> int:
         return model.eval(self.t, model_completion=True).as_long()
